@@ -175,17 +175,16 @@ theorem pruneAll_keeps (p : String) (keep names : List String) (r : Res) (wf : W
           rw [pruneAll_stuck p keep rest _ (by simp [he])] at hfin
           simp [he] at hfin
       have hp1 := handleUpdate_nil_panic r.cat p sn
-      obtain ⟨o1, o2, o3⟩ := handleUpdate_other wf (snapOK_nil sn) (by intro i hi; cases hi)
-        (by intro s _ _ i hi; cases hi) he1 hp1
+      obtain ⟨o1, o2, o3⟩ := handleUpdate_other wf (snapOK_nil sn) (by intro i hi; cases hi) he1 hp1
       obtain ⟨a, b, d⟩ := ih { Peer.handleUpdate r.cat p sn [] with log := r.log ++ (Peer.handleUpdate r.cat p sn []).log }
         (wf.handleUpdate p sn []) ⟨he1, hp1⟩ hfin
       have hne : ∀ s : Svc, s.name ∈ keep → s.name ≠ sn := fun s h1 h2 => hk (h2 ▸ h1)
-      refine ⟨fun s hs hsp hsk => a s (o1 s hs hsp (hne s hsk)) hsp hsk, ?_, ?_⟩
+      refine ⟨fun s hs hsp hsk => a s (o1 s hs hsp (hne s hsk) (by intro i hi; cases hi)) hsp hsk, ?_, ?_⟩
       · intro k hkc hkp ⟨s, hs, hsp, hsk, e1, e2⟩
-        apply b k _ hkp ⟨s, o1 s hs hsp (hne s hsk), hsp, hsk, e1, e2⟩
-        exact o2 k hkc hkp ⟨s, hs, hsp, hne s hsk, e1, e2⟩ (by intro i hi; cases hi)
+        apply b k _ hkp ⟨s, o1 s hs hsp (hne s hsk) (by intro i hi; cases hi), hsp, hsk, e1, e2⟩
+        exact o2 k hkc hkp ⟨s, hs, hsp, hne s hsk, e1, e2, by intro i hi; cases hi⟩ (by intro i hi; cases hi)
       · intro x hx hxp ⟨s, hs, hsp, hsk, e1⟩
-        have hs1 := o1 s hs hsp (hne s hsk)
+        have hs1 := o1 s hs hsp (hne s hsk) (by intro i hi; cases hi)
         apply d x _ hxp ⟨s, hs1, hsp, hsk, e1⟩
         exact (o3 x hx hxp (by intro i hi; cases hi)).mpr (Or.inr ⟨s, hs1, hsp, e1⟩)
 
